@@ -161,9 +161,9 @@ for n in (1, 2, 3, 4, 5):
     h("regs_from_str%d" % n, "ob_regs", ["C14", "C13x"], tier="quick" if n <= 4 else "thorough",
       symbolic="%d ASCII bytes" % n, desc="Register::from_str accepts exactly the ABI/numeric spellings (all %d-byte ASCII strings)" % n,
       bounds="%d bytes" % n)
-h("regs_set_algebra", "ob_regs", ["C14", "C06"], symbolic="masks a,b:u32; registers r,q",
+h("regs_set_algebra", "ob_regs", ["C14", "C06", "C01"], symbolic="masks a,b:u32; registers r,q",
   desc="RegisterSet | & - (sets and single registers), assign forms, contains, equality == bit-mask algebra", bounds="unwind 34")
-h("regs_set_iter", "ob_regs", ["C14", "C06"], symbolic="mask a:u32", desc="first three next() calls yield the three smallest members in order", bounds="3 steps, unwind 34")
+h("regs_set_iter", "ob_regs", ["C14", "C06", "C01"], symbolic="mask a:u32", desc="first three next() calls yield the three smallest members in order", bounds="3 steps, unwind 34")
 h("regs_ecall_table", "ob_regs", ["C14", "C06"], symbolic="call number:i32, register q",
   desc="environment_in_outs mentions only a-registers, never returns in a7", bounds="none")
 KINDS = ["arith", "iarith", "jal", "jalr", "basic", "branch", "store", "load", "la", "csr", "csri", "funcentry"]
